@@ -15,6 +15,7 @@ package main
 import (
 	"fmt"
 	"go/types"
+	"sort"
 	"strings"
 )
 
@@ -118,6 +119,45 @@ func (st *State) chunk(ref Term) *Chunk {
 	return st.chunks[ref.S]
 }
 
+// chunkFor finds the chunk of a reference: syntactically, or else one whose reference is provably equal
+// under the path condition (a quick solver query per candidate; only on a syntactic miss).
+func (e *Engine) chunkFor(st *State, ref Term) *Chunk {
+	if c := st.chunks[ref.S]; c != nil {
+		return c
+	}
+	if ref.S == "0" || st.dead {
+		return nil
+	}
+	for _, k := range sortedChunkKeys(st.chunks) {
+		c := st.chunks[k]
+		if e.entails(st, Eq(ref, c.Ref)) {
+			// re-key the chunk under the new name as well
+			nc := *c
+			nc.Ref = ref
+			st.dropChunk(c.Ref)
+			st.setChunk(&nc)
+			return st.chunks[ref.S]
+		}
+	}
+	return nil
+}
+
+func sortedChunkKeys(m map[string]*Chunk) []string {
+	var ks []string
+	for k := range m {
+		ks = append(ks, k)
+	}
+	sort.Strings(ks)
+	return ks
+}
+
+// entails: is the formula a consequence of the path condition? (synchronous, short timeout; "no" when unsure)
+func (e *Engine) entails(st *State, f Term) bool {
+	o := &Obligation{Name: "entails", Assume: st.pc, Goal: f, Ctx: e.ctx}
+	status, _, _ := runSolver(solvers[0], o.script("q", false), 1500, optSeed)
+	return status == "unsat"
+}
+
 func (st *State) setChunk(c *Chunk) {
 	n := make(map[string]*Chunk, len(st.chunks)+1)
 	for k, v := range st.chunks {
@@ -142,7 +182,7 @@ func (e *Engine) ownedSpecEnv(st *State) *SpecEnv {
 	if fr == nil {
 		fr = &Frame{}
 	}
-	return &SpecEnv{e: e, st: st, old: st, fr: fr, env: e.rootEnv, pkg: e.rootC.Pkg}
+	return &SpecEnv{e: e, st: st, old: st, fr: fr, env: e.rootEnv, pkg: e.rootC.Pkg, tnames: e.lemmaTNames}
 }
 
 // addTree registers a closed chunk for ref with view t.
@@ -184,7 +224,7 @@ func (e *Engine) ownedLayout(od *OwnedDecl, stt *types.Struct) (offs []int, chil
 
 // openChunk makes the node at ref individually accessible.
 func (e *Engine) openChunk(st *State, od *OwnedDecl, ref Term, elem types.Type, pos string) *Chunk {
-	c := st.chunk(ref)
+	c := e.chunkFor(st, ref)
 	if c == nil {
 		e.obligation(st, "ownership", pos, False, "dereference of a "+od.Type+" pointer this code does not own (no chunk for "+ref.S+")")
 		// continue with an unconstrained node so that later obligations are still generated
@@ -224,7 +264,7 @@ func (e *Engine) viewOf(st *State, od *OwnedDecl, ref Term, elem types.Type, dep
 		e.declareADT(od.ADT, e.ownedSpecEnv(st))
 		return Term{od.Nil, Sort(od.ADT)}, true
 	}
-	c := st.chunk(ref)
+	c := e.chunkFor(st, ref)
 	if c == nil || depth > 12 {
 		return Term{}, false
 	}
@@ -269,7 +309,7 @@ func (e *Engine) closeChunk(st *State, od *OwnedDecl, ref Term, elem types.Type,
 }
 
 func (e *Engine) consumeBelow(st *State, od *OwnedDecl, ref Term, elem types.Type, depth int) {
-	c := st.chunk(ref)
+	c := e.chunkFor(st, ref)
 	if c == nil || depth > 12 {
 		return
 	}
